@@ -11,6 +11,7 @@ package rules_test
 import (
 	"fmt"
 	"net/netip"
+	"os"
 	"sort"
 	"strings"
 	"testing"
@@ -38,6 +39,8 @@ const (
 	c08SigNftICMPCode = "c08-nft-icmp-type-code"
 	// protocol + notProtocol in one rule renders two -p flags, which iptables-restore rejects.
 	c08SigIptTwoProto = "c08-ipt-protocol-and-notprotocol"
+	// third (and fourth) positive match block re-uses the scratch bit without clearing it.
+	c08SigStaleScratch = "c08-third-positive-block-stale-scratch"
 )
 
 // ---- mark layouts (bit positions vary so that a hard-coded mask cannot hide) ----
@@ -68,6 +71,26 @@ func c08Config(m c08Marks, flowLogs bool, denyAction string) rules.Config {
 		FilterDenyAction:      denyAction,
 	}
 }
+
+// rapid's integer and SampledFrom draws are deliberately biased towards small values / early
+// elements (good for shrinking, bad for probabilities).  c08Idx turns a raw 64-bit draw into an
+// (almost) uniform index; the all-zero draw still maps to index 0 so shrinking keeps working.
+func c08Idx(t *rapid.T, label string, n int) int {
+	x := rapid.Uint64().Draw(t, label)
+	x ^= x >> 30
+	x *= 0xbf58476d1ce4e5b9
+	x ^= x >> 27
+	x *= 0x94d049bb133111eb
+	x ^= x >> 31
+	return int(x % uint64(n))
+}
+
+// c08Chance is true with probability pct/100 (false for the all-zero draw).
+func c08Chance(t *rapid.T, label string, pct int) bool {
+	return c08Idx(t, label, 100) >= 100-pct
+}
+
+func c08From[T any](t *rapid.T, label string, xs []T) T { return xs[c08Idx(t, label, len(xs))] }
 
 // ---- address / port vocabulary (DESIGN Appendix B) ----
 
@@ -104,14 +127,14 @@ func c08PoolFor(ipv int) []netip.Addr {
 }
 
 func c08GenCIDR(t *rapid.T, ipv int, label string) netip.Prefix {
-	a := rapid.SampledFrom(c08PoolFor(ipv)).Draw(t, label+"-base")
+	a := c08From(t, label+"-base", c08PoolFor(ipv))
 	var lens []int
 	if ipv == 4 {
 		lens = []int{0, 1, 8, 24, 25, 26, 27, 28, 29, 30, 31, 32, 32, 30, 28}
 	} else {
 		lens = []int{0, 1, 8, 64, 120, 121, 122, 123, 124, 125, 126, 127, 128, 128, 126, 124}
 	}
-	l := rapid.SampledFrom(lens).Draw(t, label+"-len")
+	l := c08From(t, label+"-len", lens)
 	return netip.PrefixFrom(a, l).Masked()
 }
 
@@ -154,7 +177,7 @@ func c08GenUniverse(t *rapid.T, ipv int, cfg rules.Config, nft bool) *c08Univers
 		return n
 	}
 	for _, id := range u.netIDs {
-		n := rapid.IntRange(0, 3).Draw(t, "netset-size")
+		n := c08Idx(t, "netset-size", 6)
 		rs, ss := &refpol.IPSet{}, &nfsim.Set{}
 		for i := 0; i < n; i++ {
 			p := c08GenCIDR(t, ipv, "netset-member")
@@ -167,12 +190,12 @@ func c08GenUniverse(t *rapid.T, ipv int, cfg rules.Config, nft bool) *c08Univers
 		m[id], u.sim[name(id)] = rs, ss
 	}
 	for _, id := range u.portIDs {
-		n := rapid.IntRange(0, 3).Draw(t, "portset-size")
+		n := c08Idx(t, "portset-size", 5)
 		rs, ss := &refpol.IPSet{}, &nfsim.Set{IPPortType: true}
 		for i := 0; i < n; i++ {
-			a := rapid.SampledFrom(c08PoolFor(ipv)[:6]).Draw(t, "portset-addr")
-			pr := rapid.SampledFrom([]uint8{6, 17, 132}).Draw(t, "portset-proto")
-			po := uint16(rapid.SampledFrom(c08Ports).Draw(t, "portset-port"))
+			a := c08From(t, "portset-addr", c08PoolFor(ipv)[:6])
+			pr := c08From(t, "portset-proto", []uint8{6, 6, 17, 132})
+			po := uint16(c08From(t, "portset-port", c08Ports))
 			rs.IPPorts = append(rs.IPPorts, refpol.IPPort{Addr: a, Proto: pr, Port: po})
 			ss.IPPorts = append(ss.IPPorts, nfsim.IPPort{Addr: a, Proto: pr, Port: po})
 		}
@@ -190,7 +213,8 @@ func c08GenUniverse(t *rapid.T, ipv int, cfg rules.Config, nft bool) *c08Univers
 
 type c08RuleInfo struct {
 	Blocks, Split, Straddle, NamedPort, IPSet, ICMP, MixedVer, NegCIDRBlock, NegPorts, NotApplicable bool
-	Action                                                                                          string
+	PosBlocks                                                                                        int
+	Action                                                                                           string
 }
 
 func c08ProtoName(n string) *proto.Protocol {
@@ -201,29 +225,30 @@ func c08ProtoNum(n int32) *proto.Protocol {
 	return &proto.Protocol{NumberOrName: &proto.Protocol_Number{Number: n}}
 }
 
-func c08GenPorts(t *rapid.T, label string, max int) []*proto.PortRange {
+func c08GenPorts(t *rapid.T, label string, max int, density int) []*proto.PortRange {
 	var n int
-	switch rapid.IntRange(0, 9).Draw(t, label+"-sizeclass") {
-	case 0, 1, 2, 3:
-		n = 0
+	if !c08Chance(t, label+"-any", density) {
+		return nil
+	}
+	switch 4 + c08Idx(t, label+"-sizeclass", 6) {
 	case 4, 5:
 		n = rapid.IntRange(1, 3).Draw(t, label+"-n")
 	case 6:
-		n = rapid.IntRange(4, 14).Draw(t, label+"-n")
+		n = 4 + c08Idx(t, label+"-n", 11)
 	default:
-		n = rapid.IntRange(8, max).Draw(t, label+"-n")
+		n = 8 + c08Idx(t, label+"-n", max-7)
 	}
 	var out []*proto.PortRange
 	for i := 0; i < n; i++ {
-		a := rapid.SampledFrom(c08Ports).Draw(t, label+"-first")
+		a := c08From(t, label+"-first", c08Ports)
 		var b int32
-		switch rapid.IntRange(0, 3).Draw(t, label+"-kind") {
+		switch c08Idx(t, label+"-kind", 4) {
 		case 0, 1:
 			b = a // single
 		case 2:
 			b = a + int32(rapid.IntRange(1, 3).Draw(t, label+"-width"))
 		default:
-			b = rapid.SampledFrom(c08Ports).Draw(t, label+"-last")
+			b = c08From(t, label+"-last", c08Ports)
 		}
 		if b < a {
 			a, b = b, a
@@ -236,11 +261,12 @@ func c08GenPorts(t *rapid.T, label string, max int) []*proto.PortRange {
 	return out
 }
 
-func c08GenNets(t *rapid.T, ipv int, label string, negated, allowMixed bool) []string {
+func c08GenNets(t *rapid.T, ipv int, label string, negated, allowMixed bool, density int) []string {
 	var n int
-	switch rapid.IntRange(0, 9).Draw(t, label+"-sizeclass") {
-	case 0, 1, 2, 3, 4:
-		n = 0
+	if !c08Chance(t, label+"-any", density) {
+		return nil
+	}
+	switch 5 + c08Idx(t, label+"-sizeclass", 5) {
 	case 5, 6:
 		n = 1
 	default:
@@ -249,11 +275,11 @@ func c08GenNets(t *rapid.T, ipv int, label string, negated, allowMixed bool) []s
 	var out []string
 	for i := 0; i < n; i++ {
 		v := ipv
-		if allowMixed && rapid.IntRange(0, 3).Draw(t, label+"-otherver") == 0 {
+		if allowMixed && c08Chance(t, label+"-otherver", 30) {
 			v = 10 - ipv
 		}
 		p := c08GenCIDR(t, v, label)
-		if negated && p.Bits() == 0 && rapid.IntRange(0, 3).Draw(t, label+"-keep-catchall") != 0 {
+		if negated && p.Bits() == 0 && !c08Chance(t, label+"-keep-catchall", 25) {
 			// negated catch-all is rejected by the v3 validator; keep it rare.
 			p = netip.PrefixFrom(p.Addr(), p.Addr().BitLen())
 		}
@@ -262,8 +288,8 @@ func c08GenNets(t *rapid.T, ipv int, label string, negated, allowMixed bool) []s
 	return out
 }
 
-func c08GenIDs(t *rapid.T, label string, ids []string, max int, pZero int) []string {
-	if rapid.IntRange(0, 9).Draw(t, label+"-any") < pZero {
+func c08GenIDs(t *rapid.T, label string, ids []string, max int, density int) []string {
+	if !c08Chance(t, label+"-any", density) {
 		return nil
 	}
 	n := rapid.IntRange(1, max).Draw(t, label+"-n")
@@ -275,11 +301,12 @@ type c08GenOpts struct {
 	nft            bool
 	noNftICMPCode  bool // known finding excluded
 	noIptTwoProtos bool // known finding excluded
+	noStaleScratch bool // known finding excluded
 }
 
 func c08GenRule(t *rapid.T, o c08GenOpts, u *c08Universe, rec *ev.Recorder) *proto.Rule {
 	r := &proto.Rule{}
-	r.Action = rapid.SampledFrom([]string{"allow", "allow", "deny", "deny", "pass", "next-tier", "log", ""}).Draw(t, "action")
+	r.Action = c08From(t, "action", []string{"allow", "allow", "deny", "deny", "pass", "next-tier", "log", ""})
 
 	// Protocol.
 	icmpName, icmpNum := "icmp", int32(1)
@@ -287,7 +314,7 @@ func c08GenRule(t *rapid.T, o c08GenOpts, u *c08Universe, rec *ev.Recorder) *pro
 		icmpName, icmpNum = "icmpv6", 58
 	}
 	ports, icmp := false, false
-	switch rapid.IntRange(0, 11).Draw(t, "proto-kind") {
+	switch c08Idx(t, "proto-kind", 12) {
 	case 0, 1:
 		// none
 	case 2, 3, 4:
@@ -310,7 +337,7 @@ func c08GenRule(t *rapid.T, o c08GenOpts, u *c08Universe, rec *ev.Recorder) *pro
 	default:
 		r.Protocol = c08ProtoNum(rapid.SampledFrom([]int32{2, 47, 255, 136}).Draw(t, "proto-other"))
 	}
-	if rapid.IntRange(0, 5).Draw(t, "notproto-any") == 0 {
+	if c08Chance(t, "notproto-any", 15) {
 		twoOK := o.nft || !o.noIptTwoProtos
 		if r.Protocol == nil || twoOK {
 			if rapid.Bool().Draw(t, "notproto-byname") {
@@ -325,48 +352,51 @@ func c08GenRule(t *rapid.T, o c08GenOpts, u *c08Universe, rec *ev.Recorder) *pro
 
 	// IP version (explicit) — mostly matching, sometimes the other one.
 	if r.IpVersion == proto.IPVersion_ANY {
-		switch rapid.IntRange(0, 9).Draw(t, "ipversion-kind") {
-		case 0:
+		switch c08Idx(t, "ipversion-kind", 12) {
+		case 1, 2:
 			r.IpVersion = proto.IPVersion(o.ipv)
-		case 1:
+		case 3:
 			r.IpVersion = proto.IPVersion(10 - o.ipv)
 		}
 	}
 
+	// Field density: sparse rules are mostly satisfiable, dense ones exercise many blocks.
+	d := c08From(t, "density", []int{8, 15, 15, 25, 45})
+
 	// CIDRs.  Mixed-version lists only without an explicit version (the validator ties them).
-	mixed := r.IpVersion == proto.IPVersion_ANY && rapid.IntRange(0, 7).Draw(t, "mixed-version") == 0
-	r.SrcNet = c08GenNets(t, o.ipv, "srcnet", false, mixed)
-	r.DstNet = c08GenNets(t, o.ipv, "dstnet", false, mixed)
-	r.NotSrcNet = c08GenNets(t, o.ipv, "notsrcnet", true, mixed)
-	r.NotDstNet = c08GenNets(t, o.ipv, "notdstnet", true, mixed)
+	mixed := r.IpVersion == proto.IPVersion_ANY && c08Chance(t, "mixed-version", 12)
+	r.SrcNet = c08GenNets(t, o.ipv, "srcnet", false, mixed, d+15)
+	r.DstNet = c08GenNets(t, o.ipv, "dstnet", false, mixed, d+15)
+	r.NotSrcNet = c08GenNets(t, o.ipv, "notsrcnet", true, mixed, d)
+	r.NotDstNet = c08GenNets(t, o.ipv, "notdstnet", true, mixed, d)
 
 	// Ports (numeric only with tcp/udp/sctp; named ports also without a protocol).
 	if ports {
-		r.SrcPorts = c08GenPorts(t, "srcports", 40)
-		r.DstPorts = c08GenPorts(t, "dstports", 40)
-		r.NotSrcPorts = c08GenPorts(t, "notsrcports", 40)
-		r.NotDstPorts = c08GenPorts(t, "notdstports", 40)
+		r.SrcPorts = c08GenPorts(t, "srcports", 40, d)
+		r.DstPorts = c08GenPorts(t, "dstports", 40, d+30)
+		r.NotSrcPorts = c08GenPorts(t, "notsrcports", 40, d/2)
+		r.NotDstPorts = c08GenPorts(t, "notdstports", 40, d)
 	}
 	if ports || r.Protocol == nil {
-		r.SrcNamedPortIpSetIds = c08GenIDs(t, "srcnamed", u.portIDs, 2, 8)
-		r.DstNamedPortIpSetIds = c08GenIDs(t, "dstnamed", u.portIDs, 3, 6)
-		r.NotSrcNamedPortIpSetIds = c08GenIDs(t, "notsrcnamed", u.portIDs, 2, 9)
-		r.NotDstNamedPortIpSetIds = c08GenIDs(t, "notdstnamed", u.portIDs, 2, 8)
-		r.DstIpPortSetIds = c08GenIDs(t, "dstipport", u.portIDs, 1, 9)
+		r.SrcNamedPortIpSetIds = c08GenIDs(t, "srcnamed", u.portIDs, 2, d/2)
+		r.DstNamedPortIpSetIds = c08GenIDs(t, "dstnamed", u.portIDs, 3, d)
+		r.NotSrcNamedPortIpSetIds = c08GenIDs(t, "notsrcnamed", u.portIDs, 2, d/3)
+		r.NotDstNamedPortIpSetIds = c08GenIDs(t, "notdstnamed", u.portIDs, 2, d/2)
+		r.DstIpPortSetIds = c08GenIDs(t, "dstipport", u.portIDs, 1, d/3)
 	}
 
 	// IP sets.
-	r.SrcIpSetIds = c08GenIDs(t, "srcipset", u.netIDs, 2, 7)
-	r.DstIpSetIds = c08GenIDs(t, "dstipset", u.netIDs, 2, 7)
-	r.NotSrcIpSetIds = c08GenIDs(t, "notsrcipset", u.netIDs, 2, 8)
-	r.NotDstIpSetIds = c08GenIDs(t, "notdstipset", u.netIDs, 2, 8)
+	r.SrcIpSetIds = c08GenIDs(t, "srcipset", u.netIDs, 2, d/2)
+	r.DstIpSetIds = c08GenIDs(t, "dstipset", u.netIDs, 2, d/2)
+	r.NotSrcIpSetIds = c08GenIDs(t, "notsrcipset", u.netIDs, 2, d/3)
+	r.NotDstIpSetIds = c08GenIDs(t, "notdstipset", u.netIDs, 2, d/3)
 
 	// ICMP.
 	if icmp {
 		withCodeOK := !(o.nft && o.noNftICMPCode)
-		typ := func(l string) int32 { return rapid.SampledFrom([]int32{0, 3, 8, 128, 255}).Draw(t, l) }
-		code := func(l string) int32 { return rapid.SampledFrom([]int32{0, 1, 4, 255}).Draw(t, l) }
-		switch rapid.IntRange(0, 3).Draw(t, "icmp-kind") {
+		typ := func(l string) int32 { return c08From(t, l, []int32{0, 3, 8, 128, 254}) }
+		code := func(l string) int32 { return c08From(t, l, []int32{0, 1, 4, 255}) }
+		switch c08Idx(t, "icmp-kind", 4) {
 		case 1:
 			r.Icmp = &proto.Rule_IcmpType{IcmpType: typ("icmp-type")}
 		case 2:
@@ -377,7 +407,7 @@ func c08GenRule(t *rapid.T, o c08GenOpts, u *c08Universe, rec *ev.Recorder) *pro
 				r.Icmp = &proto.Rule_IcmpType{IcmpType: typ("icmp-type")}
 			}
 		}
-		switch rapid.IntRange(0, 3).Draw(t, "noticmp-kind") {
+		switch c08Idx(t, "noticmp-kind", 4) {
 		case 1:
 			r.NotIcmp = &proto.Rule_NotIcmpType{NotIcmpType: typ("noticmp-type")}
 		case 2:
@@ -389,7 +419,29 @@ func c08GenRule(t *rapid.T, o c08GenOpts, u *c08Universe, rec *ev.Recorder) *pro
 			}
 		}
 	}
+	if o.noStaleScratch && c08Classify(r, o.ipv).PosBlocks >= 3 {
+		// Known finding: keep at most two positive match blocks.
+		rec.Excluded(c08SigStaleScratch)
+		for _, trim := range []func(){
+			func() { r.DstNet = c08FirstOfVersion(r.DstNet, o.ipv) },
+			func() { r.SrcNet = c08FirstOfVersion(r.SrcNet, o.ipv) },
+		} {
+			if c08Classify(r, o.ipv).PosBlocks >= 3 {
+				trim()
+			}
+		}
+	}
 	return r
+}
+
+// c08FirstOfVersion keeps only the first CIDR of the given IP version.
+func c08FirstOfVersion(cidrs []string, ipv int) []string {
+	for _, c := range cidrs {
+		if strings.Contains(c, ":") == (ipv == 6) {
+			return []string{c}
+		}
+	}
+	return cidrs
 }
 
 // c08Classify derives the histogram classes of a rule from the rule alone (SplitPortList is
@@ -456,7 +508,12 @@ func c08Classify(r *proto.Rule, ipv int) c08RuleInfo {
 		dstPos = 0
 	}
 	in.NegCIDRBlock = (nns > 0 && srcPos+nns > 1) || (nnd > 0 && dstPos+nnd > 1)
-	in.Blocks = !notApplicable && (ss+len(r.SrcNamedPortIpSetIds) > 1 || ds+len(r.DstNamedPortIpSetIds) > 1 || ns > 1 || nd > 1 || in.NegCIDRBlock)
+	for _, b := range []bool{ss+len(r.SrcNamedPortIpSetIds) > 1, ds+len(r.DstNamedPortIpSetIds) > 1, ns > 1, nd > 1} {
+		if b && !notApplicable {
+			in.PosBlocks++
+		}
+	}
+	in.Blocks = !notApplicable && (in.PosBlocks > 0 || in.NegCIDRBlock)
 	return in
 }
 
@@ -643,24 +700,137 @@ func c08Pick[T any](t *rapid.T, label string, cands []T, ok func(T) bool) T {
 			sat = append(sat, c)
 		}
 	}
-	if len(sat) > 0 && len(sat) < len(cands) && rapid.IntRange(0, 99).Draw(t, label+"-steer") < 85 {
-		return rapid.SampledFrom(sat).Draw(t, label)
+	if len(sat) > 0 && len(sat) < len(cands) && c08Chance(t, label+"-steer", 85) {
+		return c08From(t, label, sat)
 	}
-	return rapid.SampledFrom(cands).Draw(t, label)
+	return c08From(t, label, cands)
 }
 
-func c08DrawPacket(t *rapid.T, ipv int, c *c08Cands, u *c08Universe) refpol.Packet {
+// c08Witness searches the candidate product depth-first (pruned by the restricted rules) for
+// a packet the rule matches.  Deterministic; used only to make matching packets common.
+func c08Witness(c *c08Cands, ipv int, u *c08Universe) (refpol.Packet, bool) {
+	pool := c08PoolFor(ipv)
+	p := refpol.Packet{IPVersion: ipv, Src: pool[0], Dst: pool[0]}
+	budget := 20000
+	m := func(dim int) bool { budget--; return refpol.Match(c.restricted[dim], &p, u.ref) }
+	var dfs func(dim int) bool
+	dfs = func(dim int) bool {
+		if budget <= 0 {
+			return false
+		}
+		switch dim {
+		case 0:
+			for _, x := range c.protos {
+				p.Proto = x
+				if m(0) && dfs(1) {
+					return true
+				}
+			}
+		case 1:
+			for _, x := range c.src {
+				p.Src = x
+				if m(1) && dfs(2) {
+					return true
+				}
+			}
+		case 2:
+			for _, x := range c.dst {
+				p.Dst = x
+				if m(2) && dfs(3) {
+					return true
+				}
+			}
+		case 3:
+			if !c08HasL4Ports(p.Proto) {
+				p.SrcPort, p.DstPort = 0, 0
+				return m(3) && m(4) && dfs(5)
+			}
+			for _, x := range c.sport {
+				p.SrcPort = x
+				if m(3) && dfs(4) {
+					return true
+				}
+			}
+		case 4:
+			for _, x := range c.dport {
+				p.DstPort = x
+				if m(4) && dfs(5) {
+					return true
+				}
+			}
+		case 5:
+			if !c08IsICMP(ipv, p.Proto) {
+				p.ICMPType, p.ICMPCode = 0, 0
+				return m(5)
+			}
+			for _, x := range c.itype {
+				for _, y := range c.icode {
+					p.ICMPType, p.ICMPCode = x, y
+					if m(5) {
+						return true
+					}
+				}
+			}
+		}
+		return false
+	}
+	ok := dfs(0)
+	return p, ok
+}
+
+func c08HasL4Ports(p uint8) bool { return refpol.HasPorts(p) || p == refpol.ProtoUDPLite }
+func c08IsICMP(ipv int, p uint8) bool {
+	return (ipv == 4 && p == refpol.ProtoICMP) || (ipv == 6 && p == refpol.ProtoICMPv6)
+}
+
+func c08Normalise(p *refpol.Packet) {
+	if !c08HasL4Ports(p.Proto) {
+		p.SrcPort, p.DstPort = 0, 0
+	}
+	if !c08IsICMP(p.IPVersion, p.Proto) {
+		p.ICMPType, p.ICMPCode = 0, 0
+	}
+}
+
+// c08DrawPacket draws one packet on the boundaries of the target rule's fields: either the
+// rule's witness with 0-3 dimensions moved to other boundary points, or a greedy draw that
+// prefers (85%) candidates keeping the rule matching so far.
+func c08DrawPacket(t *rapid.T, ipv int, c *c08Cands, u *c08Universe, wit *refpol.Packet) refpol.Packet {
+	if wit != nil && c08Chance(t, "pkt-witness-mode", 60) {
+		p := *wit
+		n := c08From(t, "pkt-mutations", []int{0, 1, 1, 1, 2, 3})
+		for i := 0; i < n; i++ {
+			switch c08Idx(t, "pkt-mutate-dim", 7) {
+			case 0:
+				p.Proto = c08From(t, "pkt-proto", c.protos)
+			case 1:
+				p.Src = c08From(t, "pkt-src", c.src)
+			case 2:
+				p.Dst = c08From(t, "pkt-dst", c.dst)
+			case 3:
+				p.SrcPort = c08From(t, "pkt-sport", c.sport)
+			case 4:
+				p.DstPort = c08From(t, "pkt-dport", c.dport)
+			case 5:
+				p.ICMPType = c08From(t, "pkt-icmptype", c.itype)
+			case 6:
+				p.ICMPCode = c08From(t, "pkt-icmpcode", c.icode)
+			}
+		}
+		c08Normalise(&p)
+		return p
+	}
 	pool := c08PoolFor(ipv)
 	p := refpol.Packet{IPVersion: ipv, Src: pool[0], Dst: pool[0]}
 	m := func(dim int) bool { return refpol.Match(c.restricted[dim], &p, u.ref) }
 	p.Proto = c08Pick(t, "pkt-proto", c.protos, func(x uint8) bool { p.Proto = x; return m(0) })
 	p.Src = c08Pick(t, "pkt-src", c.src, func(x netip.Addr) bool { p.Src = x; return m(1) })
 	p.Dst = c08Pick(t, "pkt-dst", c.dst, func(x netip.Addr) bool { p.Dst = x; return m(2) })
-	if refpol.HasPorts(p.Proto) || p.Proto == refpol.ProtoUDPLite {
+	if c08HasL4Ports(p.Proto) {
 		p.SrcPort = c08Pick(t, "pkt-sport", c.sport, func(x uint16) bool { p.SrcPort = x; return m(3) })
 		p.DstPort = c08Pick(t, "pkt-dport", c.dport, func(x uint16) bool { p.DstPort = x; return m(4) })
 	}
-	if (ipv == 4 && p.Proto == 1) || (ipv == 6 && p.Proto == 58) {
+	if c08IsICMP(ipv, p.Proto) {
 		p.ICMPType = c08Pick(t, "pkt-icmptype", c.itype, func(x uint8) bool { p.ICMPType = x; return m(5) })
 		p.ICMPCode = c08Pick(t, "pkt-icmpcode", c.icode, func(x uint8) bool { p.ICMPCode = x; return m(5) })
 	}
@@ -703,10 +873,26 @@ func c08Render(cfg rules.Config, nft bool, ipv int, inbound bool, prules []*prot
 		out.rs, out.entry = rs, name
 	}
 	out.rs.Sets = u.sim
+	c08Dump(nft, ipv, out.rs)
 	if !out.rs.HasChain(out.entry) {
 		return nil, fmt.Errorf("policy chain %q was not rendered; got %v", out.entry, out.rs.ChainNames())
 	}
 	return out, out.rs.Err()
+}
+
+// c08Dump (development aid): with $VERIF_C08_DUMP set, every rendered ruleset is appended to
+// that file so it can be syntax-checked with the real nft -c / iptables-restore --test.
+func c08Dump(nft bool, ipv int, rs *nfsim.Ruleset) {
+	path := os.Getenv("VERIF_C08_DUMP")
+	if path == "" {
+		return
+	}
+	f, err := os.OpenFile(path, os.O_APPEND|os.O_CREATE|os.O_WRONLY, 0o644)
+	if err != nil {
+		return
+	}
+	defer f.Close()
+	fmt.Fprintf(f, "=== %s %d\n%s", map[bool]string{false: "iptables", true: "nft"}[nft], ipv, rs.Dump())
 }
 
 func c08SimPacket(p refpol.Packet, mark uint32) *nfsim.Packet {
@@ -778,6 +964,7 @@ func TestVerifC08Rules(t *testing.T) {
 	defer rec.Write()
 	noNftICMPCode := ev.Known(c08SigNftICMPCode)
 	noIptTwoProtos := ev.Known(c08SigIptTwoProto)
+	noStaleScratch := ev.Known(c08SigStaleScratch)
 	nPackets := ev.Scale(24, 64)
 
 	rapid.Check(t, func(t *rapid.T) {
@@ -786,21 +973,30 @@ func TestVerifC08Rules(t *testing.T) {
 		marks := rapid.SampledFrom(c08MarkLayouts).Draw(t, "markLayout")
 		flowLogs := rapid.Bool().Draw(t, "flowLogs")
 		denyAction := rapid.SampledFrom([]string{"DROP", "REJECT"}).Draw(t, "denyAction")
-		untracked := rapid.IntRange(0, 5).Draw(t, "untracked") == 0
+		untracked := c08Chance(t, "untracked", 15)
 		inbound := rapid.Bool().Draw(t, "inbound")
 		cfg := c08Config(marks, flowLogs, denyAction)
 		u := c08GenUniverse(t, ipv, cfg, nft)
-		o := c08GenOpts{ipv: ipv, nft: nft, noNftICMPCode: noNftICMPCode, noIptTwoProtos: noIptTwoProtos}
+		o := c08GenOpts{ipv: ipv, nft: nft, noNftICMPCode: noNftICMPCode, noIptTwoProtos: noIptTwoProtos, noStaleScratch: noStaleScratch}
 
 		nRules := rapid.SampledFrom([]int{1, 1, 1, 2, 2, 3}).Draw(t, "nRules")
 		var prules []*proto.Rule
 		var infos []c08RuleInfo
 		var cands []*c08Cands
+		var wits []*refpol.Packet
+		satisfiable := 0
 		for i := 0; i < nRules; i++ {
 			r := c08GenRule(t, o, u, rec)
 			prules = append(prules, r)
 			infos = append(infos, c08Classify(r, ipv))
-			cands = append(cands, c08BuildCands(r, ipv, u))
+			c := c08BuildCands(r, ipv, u)
+			cands = append(cands, c)
+			if w, ok := c08Witness(c, ipv, u); ok {
+				wits = append(wits, &w)
+				satisfiable++
+			} else {
+				wits = append(wits, nil)
+			}
 		}
 
 		rd, err := c08Render(cfg, nft, ipv, inbound, prules, untracked, u)
@@ -812,10 +1008,10 @@ func TestVerifC08Rules(t *testing.T) {
 		for i := 0; i < nPackets; i++ {
 			target := 0
 			if nRules > 1 {
-				target = rapid.IntRange(0, nRules-1).Draw(t, "pkt-target-rule")
+				target = c08Idx(t, "pkt-target-rule", nRules)
 			}
-			p := c08DrawPacket(t, ipv, cands[target], u)
-			mark0 := rapid.Uint32().Draw(t, "pkt-mark") &^ (marks.Accept | marks.Pass | marks.Drop)
+			p := c08DrawPacket(t, ipv, cands[target], u, wits[target])
+			mark0 := uint32(c08Idx(t, "pkt-mark", 1<<32)) &^ (marks.Accept | marks.Pass | marks.Drop)
 			act, _, bad := c08CheckPacket(rd, prules, u, marks, denyAction, p, mark0)
 			if bad != "" {
 				if strings.HasPrefix(bad, "ERR:") {
@@ -832,11 +1028,13 @@ func TestVerifC08Rules(t *testing.T) {
 			"deny-"+denyAction, c08Bool(flowLogs, "flowlogs"), c08Bool(untracked, "untracked"), fmt.Sprintf("rules-%d", nRules))
 		anyBlocks := false
 		var keyParts []string
+		classes = append(classes, c08Bool(satisfiable == 0, "no-rule-satisfiable"))
 		for _, in := range infos {
+			classes = append(classes, c08Bool(in.PosBlocks >= 3, "positive-blocks-3+"), c08Bool(in.PosBlocks == 2, "positive-blocks-2"))
 			if in.Blocks || (in.Split && !in.NotApplicable) {
 				anyBlocks = true
 			}
-			flags := c08Bool(in.Blocks, "B") + c08Bool(in.Split, "S") + c08Bool(in.Straddle, "X") + c08Bool(in.NamedPort, "N") +
+			flags := fmt.Sprint(in.PosBlocks) + c08Bool(in.Blocks, "B") + c08Bool(in.Split, "S") + c08Bool(in.Straddle, "X") + c08Bool(in.NamedPort, "N") +
 				c08Bool(in.IPSet, "I") + c08Bool(in.ICMP, "C") + c08Bool(in.MixedVer, "M") + c08Bool(in.NegCIDRBlock, "G") +
 				c08Bool(in.NegPorts, "P") + c08Bool(in.NotApplicable, "0")
 			keyParts = append(keyParts, in.Action+":"+flags)
@@ -877,4 +1075,59 @@ func TestVerifC08Rules(t *testing.T) {
 				"rules": rs, "outcomes": outcomes, "rendered": strings.Split(rd.rs.Dump(), "\n")}
 		}, cl...)
 	})
+}
+
+// ---- deterministic confirmation tests for the known findings (run by the driver only for
+// signatures listed in KNOWN_FINDINGS.json; each FAILS while the finding reproduces) ----
+
+func c08ConfirmRun(t *testing.T, nft bool, ipv int, r *proto.Rule, pkts []refpol.Packet) {
+	ev.Quiet()
+	marks := c08MarkLayouts[0]
+	cfg := c08Config(marks, false, "DROP")
+	u := &c08Universe{ipv: ipv, sim: map[string]*nfsim.Set{}, ref: refpol.MapSets{V4: map[string]*refpol.IPSet{}, V6: map[string]*refpol.IPSet{}}}
+	prules := []*proto.Rule{r}
+	rd, err := c08Render(cfg, nft, ipv, true, prules, false, u)
+	if err != nil {
+		t.Fatalf("rendered policy chain cannot be loaded: %v\nrule: %v", err, r)
+	}
+	for _, p := range pkts {
+		if _, _, bad := c08CheckPacket(rd, prules, u, marks, "DROP", p, 0); bad != "" {
+			t.Fatalf("C08 violated: %s\nrule: %v\nrendered:\n%s", bad, r, rd.rs.Dump())
+		}
+	}
+}
+
+func TestVerifC08ConfirmStaleScratch(t *testing.T) {
+	var ports []*proto.PortRange
+	for i := int32(1); i <= 16; i++ {
+		ports = append(ports, &proto.PortRange{First: i, Last: i})
+	}
+	r := &proto.Rule{Action: "allow", Protocol: c08ProtoName("tcp"),
+		SrcNet: []string{"10.0.0.0/30", "10.0.0.8/30"}, DstNet: []string{"10.0.0.16/30", "10.0.0.24/30"}, DstPorts: ports}
+	a := netip.MustParseAddr
+	c08ConfirmRun(t, false, 4, r, []refpol.Packet{
+		{IPVersion: 4, Proto: 6, Src: a("10.0.0.1"), Dst: a("10.0.0.17"), SrcPort: 1000, DstPort: 16}, // matches
+		{IPVersion: 4, Proto: 6, Src: a("10.0.0.1"), Dst: a("10.0.1.1"), SrcPort: 1000, DstPort: 16},  // dst outside dst_net
+	})
+}
+
+func TestVerifC08ConfirmNftICMPCode(t *testing.T) {
+	r := &proto.Rule{Action: "allow", Protocol: c08ProtoName("icmp"), IpVersion: proto.IPVersion_IPV4,
+		Icmp: &proto.Rule_IcmpTypeCode{IcmpTypeCode: &proto.IcmpTypeAndCode{Type: 8, Code: 0}}}
+	a := netip.MustParseAddr
+	c08ConfirmRun(t, true, 4, r, []refpol.Packet{{IPVersion: 4, Proto: 1, Src: a("10.0.0.1"), Dst: a("10.0.0.2"), ICMPType: 8}})
+}
+
+func TestVerifC08ConfirmIptTwoProtos(t *testing.T) {
+	r := &proto.Rule{Action: "allow", Protocol: c08ProtoName("tcp"), NotProtocol: c08ProtoName("udp")}
+	a := netip.MustParseAddr
+	c08ConfirmRun(t, false, 4, r, []refpol.Packet{{IPVersion: 4, Proto: 6, Src: a("10.0.0.1"), Dst: a("10.0.0.2"), SrcPort: 1, DstPort: 2}})
+}
+
+// TestVerifC08NfsimSelfTest runs the interpreter's own self-tests (hand-written rule text with
+// known outcomes, both front ends).
+func TestVerifC08NfsimSelfTest(t *testing.T) {
+	for _, f := range nfsim.SelfTest() {
+		t.Errorf("nfsim self-test: %s", f)
+	}
 }
